@@ -38,6 +38,16 @@ def gen_failing(pid, n, fail_at, exc, stall_at=None):
   return f'ret{pid}'
 
 
+class _CannotOpen:
+  """An iterable that cannot be opened: iter() itself raises."""
+
+  def __init__(self, exc, pid):
+    self.exc, self.pid = exc, pid
+
+  def __iter__(self):
+    raise targets.EXC[self.exc](f'producer {self.pid} cannot be opened')
+
+
 def run_case(case):
   from ml_metrics._src.utils import iter_utils  # pylint: disable=g-import-not-at-top
   prods, cons, fault = case['producers'], case['consumers'], case['fault']
@@ -49,14 +59,32 @@ def run_case(case):
   timeout = fault.get('timeout') if fault['kind'] == 'timeout' else None
 
   def main():
-    q = iter_utils.IteratorQueue(case['buffer'], max_enqueuer=len(prods), name='q', timeout=timeout)
+    if fault['kind'] == 'iter_raises':
+      # the number of producers is not announced: the queue counts the producers that register themselves
+      q = iter_utils.IteratorQueue(case['buffer'], name='q')
+    else:
+      q = iter_utils.IteratorQueue(case['buffer'], max_enqueuer=len(prods), name='q', timeout=timeout)
     box['q'] = q
+    box['registered'] = 0
+
+    def after_all_registered(i, gen):
+      # every healthy producer has registered with the queue before any of them produces (or finishes)
+      box['registered'] += 1
+      while box['registered'] < len(prods) - 1:
+        dsched.time_shim.sleep(0.001)
+      return (yield from gen)
 
     def producer(i):
       fa = fault['at'] if fault['kind'] == 'producer_raises' and fault['producer'] == i else None
       sa = fault['at'] if fault['kind'] == 'timeout' and fault['side'] == 'producer_stalls' and i == 0 else None
       try:
-        q.enqueue_from_iterator(gen_failing(i, prods[i], fa, fault.get('exc', 'ValueError'), sa))
+        if fault['kind'] == 'iter_raises':
+          if fault['producer'] == i:
+            q.enqueue_from_iterator(_CannotOpen(fault['exc'], i))
+          else:
+            q.enqueue_from_iterator(after_all_registered(i, gen_failing(i, prods[i], None, 'ValueError')))
+        else:
+          q.enqueue_from_iterator(gen_failing(i, prods[i], fa, fault.get('exc', 'ValueError'), sa))
         prod_out[i] = 'returned'
       except Exception as e:  # pylint: disable=broad-exception-caught
         prod_out[i] = e
@@ -74,6 +102,8 @@ def run_case(case):
         raise
       except Exception as e:  # pylint: disable=broad-exception-caught
         finals[i] = ('exc', e)
+        if fault.get('stop_after_error'):
+          q.maybe_stop()         # what DequeueIterator / MultiplexIterator do when their consumer gives up after an error
 
     def controller():
       for _ in range(fault['after']):
@@ -118,6 +148,18 @@ def run_case(case):
     else:
       for ci, f in enumerate(finals):
         check(f is not None and f[0] == 'stop', 'consumer-did-not-terminate', f'{what}: consumer {ci} ended with {f!r}')
+  elif fault['kind'] == 'iter_raises':
+    i = fault['producer']
+    check(isinstance(prod_out[i], targets.EXC[fault['exc']]), 'failing-producer-does-not-reraise', f'{what}: producer {i} outcome {prod_out[i]!r}')
+    for j, o in enumerate(prod_out):
+      if j != i:
+        check(o == 'returned', 'other-producer-did-not-return', f'{what}: producer {j} outcome {o!r}')
+    for ci, f in enumerate(finals):
+      check(f is not None, 'consumer-did-not-terminate', f'{what}: consumer {ci}')
+    if all(f[0] == 'stop' for f in finals):
+      want = sorted(x for x in produced if x[0] != i)
+      check(sorted(flat) == want, 'elements-lost', f'{what}: consumers ended normally with {received}, the healthy producers made {want}')
+    nt = len(prods) >= 3
   elif fault['kind'] == 'stop':
     for ci, f in enumerate(finals):
       check(f is not None, 'consumer-did-not-terminate', f'{what}: consumer {ci} still blocked after stop')
@@ -315,7 +357,7 @@ def strat_async(tier):
 def strat(tier):
   @st.composite
   def s(draw):
-    kind = draw(st.sampled_from(['producer_raises', 'producer_raises', 'stop', 'stop', 'timeout']))
+    kind = draw(st.sampled_from(['producer_raises', 'producer_raises', 'stop', 'stop', 'timeout', 'producer_raises', 'stop', 'iter_raises']))
     # up to 5 producers: a failure has to wake *all* the others, however many are parked on the full queue
     prods = draw(st.one_of(st.lists(st.integers(0, 4), min_size=1, max_size=3), st.lists(st.integers(1, 3), min_size=4, max_size=5)))
     cons = draw(st.lists(st.builds(lambda m, n: {'mode': m, 'n': n}, st.sampled_from(['get', 'batch_nb', 'batch_b', 'get']), st.integers(1, 3)),
@@ -324,7 +366,12 @@ def strat(tier):
     if kind == 'producer_raises':
       i = draw(st.integers(0, len(prods) - 1))
       fault = {'kind': kind, 'producer': i, 'at': draw(st.integers(0, prods[i])),
-               'exc': draw(st.sampled_from(['ValueError', 'KeyError', 'RuntimeError', 'InjectedError']))}
+               'exc': draw(st.sampled_from(['ValueError', 'KeyError', 'RuntimeError', 'InjectedError'])),
+               'stop_after_error': draw(st.booleans())}
+    elif kind == 'iter_raises':
+      if len(prods) < 2:
+        prods = prods + [draw(st.integers(0, 3))]
+      fault = {'kind': kind, 'producer': draw(st.integers(0, len(prods) - 1)), 'exc': draw(st.sampled_from(['ValueError', 'KeyError', 'RuntimeError']))}
     elif kind == 'stop':
       fault = {'kind': kind, 'after': draw(st.integers(0, 6)), 'exc': draw(st.sampled_from([None, None, 'ValueError', 'RuntimeError']))}
     else:
